@@ -13,12 +13,15 @@ pub struct Rep {
     pub shard: u64,
     pub nshards: u64,
     pub only: Option<String>,
+    /// slow flavours: the table is cut into nshards*mult slices, the seed picks the slice
+    pub mult: u64,
+    pub seed: u64,
     counter: u64,
 }
 
 impl Rep {
     pub fn new(prop: &str, shard: u64, nshards: u64, only: Option<String>) -> Rep {
-        Rep { prop: prop.to_string(), cases: 0, nontrivial: 0, viols: Vec::new(), stats: BTreeMap::new(), samples: Vec::new(), shard, nshards, only, counter: 0 }
+        Rep { prop: prop.to_string(), cases: 0, nontrivial: 0, viols: Vec::new(), stats: BTreeMap::new(), samples: Vec::new(), shard, nshards, only, mult: 1, seed: 0, counter: 0 }
     }
     /// should this case run in this shard?
     pub fn take(&mut self, name: &str) -> bool {
@@ -26,7 +29,7 @@ impl Rep {
             return o == name;
         }
         self.counter += 1;
-        self.counter % self.nshards == self.shard
+        self.counter % (self.nshards * self.mult) == self.shard + self.nshards * (self.seed % self.mult)
     }
     pub fn inc(&mut self, k: &str) {
         *self.stats.entry(k.to_string()).or_insert(0) += 1;
